@@ -98,6 +98,43 @@ Theorem C13_merge_no_foreign_refs : forall inputs st, all_WFh inputs -> merge_wi
 Proof. exact merge_no_foreign_refs. Qed.
 Print Assumptions C13_merge_no_foreign_refs.
 
+(* ---- order independence, the part that is proved.  For inputs in which no type is declared with two different
+        supertypes (no_competing, boolean twin no_competingb): two tuples with the same declarations - in particular a
+        permutation of the arguments - whose merges both succeed give the same types, the same supertypes and the same
+        effective features (as sets of (name, range, element type or TOP)): ts_equiv. ---- *)
+Theorem C13_merge_order_independent_partial : forall inputs inputs' a b, all_WFh inputs -> all_WFh inputs' ->
+  same_decls (type_list inputs) (type_list inputs') -> no_competing (type_list inputs) ->
+  merge inputs = Ok a -> merge inputs' = Ok b -> ts_equiv a b = true.
+Proof. exact merge_order_independent_partial. Qed.
+Print Assumptions C13_merge_order_independent_partial.
+
+Theorem C13_merge_permutation_partial : forall inputs inputs' a b, all_WFh inputs -> Permutation inputs inputs' ->
+  no_competing (type_list inputs) -> merge inputs = Ok a -> merge inputs' = Ok b -> ts_equiv a b = true.
+Proof. exact merge_permutation_partial. Qed.
+Print Assumptions C13_merge_permutation_partial.
+
+(* merging with itself / with an empty type system changes nothing - as far as the partial theorem reaches: the three
+   merges [t], [t; t] and [t; TypeSystem()] are equivalent whenever they succeed (that they DO succeed, and that the
+   merge of [t] is equivalent to t itself, is the "replay" statement listed below as not proved) *)
+Theorem C13_merge_self_partial : forall t a b, WFh t -> no_competing (type_list [t]) ->
+  merge [t] = Ok a -> merge [t; t] = Ok b -> ts_equiv a b = true.
+Proof. exact merge_self_partial. Qed.
+Print Assumptions C13_merge_self_partial.
+
+Theorem C13_merge_empty_partial : forall t a b, WFh t -> (forall x, In x (user_types init_ts) -> In x (user_types t)) ->
+  no_competing (type_list [t]) -> merge [t] = Ok a -> merge [t; init_ts] = Ok b -> ts_equiv a b = true.
+Proof. exact merge_empty_partial. Qed.
+Print Assumptions C13_merge_empty_partial.
+
+Theorem C13_no_competing_reflect : forall L, no_competingb L = true -> no_competing L.
+Proof. exact no_competingb_sound. Qed.
+Print Assumptions C13_no_competing_reflect.
+
+(* nothing comes from nowhere: every type of the result is built in or declared by an input, and so is every own feature *)
+Theorem C13_merge_origin : forall inputs ts, all_WFh inputs -> merge inputs = Ok ts -> origin_ok (type_list inputs) ts.
+Proof. exact merge_origin. Qed.
+Print Assumptions C13_merge_origin.
+
 (* ---- merge_inputs_unchanged: `merge` is a function of immutable values, so the statement is trivial in the model; that
         merge_typesystems does not modify its arguments (dumps and the identities of the domainType / rangeType /
         elementType references of all their Feature objects, before and after) is carried by the correspondence harness
@@ -113,6 +150,9 @@ Print Assumptions C13_merge_no_foreign_refs.
      _add_feature and the one of create_type's inheritance loop.)
    C13_merge_idempotent:      WF t -> exists r, merge [t; t] = Ok r /\ ts_equiv r t = true
    C13_merge_empty_neutral:   WF t -> exists r, merge [t; init_ts] = Ok r /\ ts_equiv r t = true
+     (both need the "replay" theorem: merging the declarations of one well-formed type system into TypeSystem() raises
+      nowhere and reproduces it.  By C13_merge_order_independent_partial the three merges [t], [t; t] and [t; init_ts]
+      are equivalent to each other whenever they succeed and t carries the default DocumentAnnotation.)
    C13_merge_order_independent (FULL statement, with the property's side condition):
      forall inputs inputs', Permutation inputs inputs' ->
        (forall d1 d2, In d1 (type_list inputs) -> In d2 (type_list inputs) -> dname d1 = dname d2 ->
@@ -123,10 +163,14 @@ Print Assumptions C13_merge_no_foreign_refs.
        match merge inputs, merge inputs' with
        | Ok a, Ok b => ts_equiv a b = true | Err _, Err _ => True | _, _ => False end
      and the same for regroupings merge [merge [a; b]; c] / merge [a; b; c].
-   What is proved of it: the supertype half.  By C13_merge_supertype_most_specific and C13_merge_contains_all_types the
-   types of the result and the supertype of each are determined by the SET of declarations whenever both orders succeed
-   (the most specific declared supertype is unique in a tree), and by C13_merge_conflict_raises_* the failures caused by
-   supertypes do not depend on the order either. ---- *)
+   What is proved of it: (1) C13_merge_order_independent_partial / C13_merge_permutation_partial above: without
+   competing supertypes and when both merges succeed, the results are equivalent.  (2) With competing supertypes, the
+   supertype half: by C13_merge_supertype_most_specific and C13_merge_contains_all_types the types of the result and
+   the supertype of each are determined by the SET of declarations whenever both orders succeed (the most specific
+   declared supertype is unique in a tree), and by C13_merge_conflict_raises_* the failures that the declarations force
+   do not depend on the order.  Missing: that success itself does not depend on the order under the side condition
+   (an order can fail on a comparison that another order postpones until the hierarchy has deepened - exactly what the
+   side condition is there to exclude), and regrouping. ---- *)
 
 (* ================================================================================================ non-vacuity *)
 Definition ex_a : tsys := final_ts [CT "a.A" ANNOTATION; CT "a.B" "a.A"; CT "a.X" "a.A"; CF "a.B" "f" "uima.cas.String" None] init_ts.
